@@ -1,7 +1,7 @@
 """C06 — capabilities exchange gates all traffic and yields the specified outcome (Mon_C06.tla)."""
 from . import nodecommon as nc
 
-PROFILE = {"weights": [4, 4, 2, 1, 1, 1, 5, 2, 1, 1], "act": {"tick": 5, "connect": 4, "feed": 12}}
+PROFILE = {"weights": [4, 4, 2, 1, 1, 1, 5, 2, 1, 1], "act": {"tick": 5, "connect": 4, "feed": 12, "garbage": 0.5, "frag": 1}, "send": 3}
 
 
 def plans(tier):
@@ -10,16 +10,26 @@ def plans(tier):
           dict(cfg="B", depth=6 if th else 5, maxtime=4, alpha=["cea", "dwr", "req", "dpa"], pairs=True, faults=True, maxconn=2)]
     if th:
         mc.append(dict(cfg="C", depth=5, maxtime=3, alpha=["cer", "cea", "req", "dwa", "dpr"], pairs=True, faults=True, maxconn=3, timeout=2400))
-    sim = [dict(cfg="A", depth=8, maxtime=6, alpha=["cer", "dwr", "dwa", "dpr", "dpa", "req", "ans", "ureq"], num=400 if th else 60, maxconn=3),
+    sim = [dict(cfg="B", depth=10, maxtime=8, alpha=["cea", "dwr"], num=200 if th else 40, maxconn=4),
+           dict(cfg="A", depth=8, maxtime=6, alpha=["cer", "dwr", "dwa", "dpr", "dpa", "req", "ans", "ureq"], num=400 if th else 60, maxconn=3),
            dict(cfg="C", depth=10, maxtime=8, alpha=["cer", "cea", "dwr", "dwa", "dpr", "dpa", "req", "ans"], num=400 if th else 60, maxconn=4)]
     return mc, sim
+
+
+def enum_plans(tier):
+    th = tier == "thorough"
+    # every history of the timing alphabet (ticks, connect results, one good CEA / CER): timeouts at every offset
+    return [dict(cfg="B", depth=7 if th else 6, maxtime=7 if th else 6, alpha=["ceaok"], maxconn=2),
+            dict(cfg="B", depth=5, maxtime=2, alpha=["ceaok", "send"], maxconn=2),       # routing before / after the exchange
+            dict(cfg="A", depth=6 if th else 5, maxtime=5, alpha=["cerok"], maxconn=1)]
 
 
 def run(tier, seed):
     mc, sim = plans(tier)
     ck = nc.run_property("C06", tier, seed, "Inv06", PROFILE, mc, sim, 1500 if tier == "thorough" else 240,
                          ["the CE timeout is read as: no bytes received for longer than the timeout since establishment (the code restarts it on any received bytes)",
-                          "an outbound connection never claims to be a different configured peer; a malformed CEA (no Origin-Host) and a second CER are not judged"])
+                          "an outbound connection never claims to be a different configured peer; a malformed CEA (no Origin-Host) and a second CER are not judged"],
+                         enum_plan=enum_plans(tier))
     return ck.finish()
 
 
